@@ -10,7 +10,7 @@ TRUSTED_BASE = [
     "Coq 8.16.1 kernel (coqc, full .vo compilation; vm_compute used for witness lemmas; native_compute not used)",
     "axioms: none expected — Print Assumptions of every property theorem is re-run on every check and compared with the allowlist",
     "tools/params.py (regex translator: constants of /repo/chitchat/src -> coq/theories/Params.v, regenerated every run)",
-    "tools/guards.py (expression translator: 13 integer decision guards of /repo/chitchat/src -> coq/theories/GuardsGen.v, regenerated every run; coq/theories/GuardTie.v proves the model's guards cut the same boundaries; a guard it cannot locate falls back to the model's own and is listed in the evidence)",
+    "tools/guards.py (expression translator: 21 integer decision guards and frontier expressions of /repo/chitchat/src -> coq/theories/GuardsGen.v, regenerated every run; coq/theories/GuardTie.v proves the model's guards cut the same boundaries; a guard it cannot locate falls back to the model's own and is listed in the evidence)",
     "hand-written Gallina model coq/theories/*.v, tied to the code by the correspondence harness (harness/, Rust, links /repo/chitchat with feature verif) and extract/driver.ml",
     "extraction: ExtrOcamlBasic only (bool, option, list, prod, unit, sumbool -> OCaml natives), no Extract Constant / Extract Inductive of our own; OCaml 4.13.1 + zarith for number printing",
     "zstd is a section variable (zc/zd); at run time its answers are read back from the implementation's own streams",
